@@ -183,11 +183,13 @@ def run(spec, res):
     # functions of /repo that the obligation actually executes (measured on the first paths)
     seen_funcs = set()
 
+    _REPO_PREFIX = os.environ.get("VERIF_REPO", "/repo").rstrip("/") + "/"
+
     def _prof(frame, event, arg):
         if event == "call":
             co = frame.f_code
-            if co.co_filename.startswith("/repo/"):
-                seen_funcs.add("%s:%s" % (co.co_filename[6:-3].replace("/", "."), co.co_qualname))
+            if co.co_filename.startswith(_REPO_PREFIX):
+                seen_funcs.add("%s:%s" % (co.co_filename[len(_REPO_PREFIX):-3].replace("/", "."), co.co_qualname))
     search_root = RootNode()
     t0 = time.process_time()
     exhausted = False
